@@ -71,6 +71,10 @@ type config struct {
 	Passes         []pass
 	MaxInstr       int // bounds of the pass being explored
 	MaxDev         int
+	// RealConn: the tracker talks to the model daemon through the real
+	// ipfshttp.Connector (HTTP over in-bubble pipes) instead of the model's
+	// own IPFSConnector interface
+	RealConn bool
 }
 
 // pass bounds one DFS: instructions per path and deviations per path.
@@ -149,12 +153,13 @@ type finding struct {
 }
 
 type world struct {
-	cfg     config
-	ctx     context.Context
-	tr      *stateless.Tracker
-	st      state.State
-	model   *clus.IPFS
-	healthy atomic.Bool
+	cfg       config
+	ctx       context.Context
+	tr        *stateless.Tracker
+	st        state.State
+	model     *clus.IPFS
+	healthy   atomic.Bool
+	closeConn func()
 
 	last    map[string]kind   // last track/untrack instruction per CID label
 	tol     map[string]bool   // an unpin call for the CID failed at the daemon since that instruction
@@ -192,7 +197,11 @@ func newWorld(cfg config) *world {
 		panic(err)
 	}
 	w.tr = stateless.New(tc, self, "p0", func(context.Context) (state.ReadOnly, error) { return w.st, nil })
-	w.tr.SetClient(clus.LocalRPC(map[string]interface{}{"IPFSConnector": &clus.IPFSSvc{M: w.model}}))
+	var svc interface{} = &clus.IPFSSvc{M: w.model}
+	if cfg.RealConn {
+		svc, w.closeConn = clus.RealIPFSService(w.model)
+	}
+	w.tr.SetClient(clus.LocalRPC(map[string]interface{}{"IPFSConnector": svc}))
 	for _, l := range cfg.Cids {
 		w.last[l] = kNo
 	}
@@ -201,6 +210,9 @@ func newWorld(cfg config) *world {
 
 func (w *world) shutdown() {
 	w.tr.Shutdown(w.ctx)
+	if w.closeConn != nil {
+		w.closeConn()
+	}
 	synctest.Wait()
 }
 
@@ -664,7 +676,15 @@ func (w *world) clause2() []cidObs {
 				panic(err)
 			}
 			for _, got := range reissued[l] {
-				if d := pinDiff(got, rec); len(d) > 0 {
+				d := pinDiff(got, rec)
+				if w.cfg.RealConn {
+					// over HTTP only the CID and how deep to pin reach the daemon
+					d = nil
+					if got.MaxDepth != rec.MaxDepth {
+						d = append(d, "MaxDepth")
+					}
+				}
+				if len(d) > 0 {
 					w.addFinding(fmt.Sprintf("C05|clause2|reissued-pin-differs-from-recorded|recorded=%s|lost=%s", o.Last, strings.Join(d, "+")),
 						map[string]interface{}{"cid": l, "recorded_pin": rec.String(), "reissued_pin": got.String(), "differing_fields": d,
 							"expected": "the pin call re-issued by recover carries the pin recorded in the shared pinset"})
